@@ -1,8 +1,11 @@
 package checks
 
 import (
+	"strings"
+
 	"time"
 
+	"verif/harness/internal/gen"
 	"verif/harness/internal/mon"
 	"verif/harness/internal/oracle"
 	"verif/harness/internal/run"
@@ -81,4 +84,37 @@ func registerSched() {
 		RuleText: genRule + "Statement lifecycle hooks (build tag verif): canonical dump of the session before a statement's first operation and at every checkpoint, compared after Discard / Rollback; Cache calls of every Commit compared with the net effect of the valid operations. Non-trivial: a case with >= 2 judged discards/rollbacks and >= 1 judged commit.",
 		Assume: []string{"dump excludes tasksToAllocate caches, fit errors, topology scratch scores and GPUGroups of pods that are not on a node",
 			"a discard/rollback is judged only if no other statement with pending operations was alive and no commit happened in between"}})
+	run.Register(&SchedCheck{Id: "C10", Profile: "mixed", Quick: 400, Thorough: 8000, PanicIsViolation: true, TimeoutCase: 45 * time.Second,
+		Mutate: func(c *spec.Case, seed int64, idx int) {
+			r := gen.NewRand(seed, idx, 10)
+			c.Faults = spec.Faults{}
+			c.Cycles = 2
+			n := 0
+			if idx%8 != 0 { // every 8th case is well-formed (panics on valid input also refute the property)
+				n = 1 + r.IntN(5)
+			}
+			c.Meta["hostile"] = gen.Hostile(c, r, n)
+			gen.AddControl(c)
+		},
+		AfterCase: func(c *spec.Case, hist []CycleRecord, st *oracle.Stats) []run.Violation {
+			for _, m := range c.Meta["hostile"].([]string) {
+				st.Inc("mutation_" + m)
+			}
+			st.NonTrivial = len(c.Meta["hostile"].([]string)) > 0
+			for _, h := range hist {
+				if h.Panic != "" {
+					return nil // reported as sut-panic
+				}
+				for _, e := range h.Events {
+					if e.Kind == "bind" && e.Pod == gen.ControlPod && e.Err == "" && e.Node == gen.ControlNode {
+						st.Inc("control_workload_bound")
+						return nil
+					}
+				}
+			}
+			return []run.Violation{oracle.Viol("C10", "control-workload-not-scheduled", strings.Join(c.Meta["hostile"].([]string), "+"), 0,
+				"the healthy control workload (own queue %s, dedicated node %s) was not bound in %d cycles; malformed objects: %v", gen.ControlQueue, gen.ControlNode, len(hist), c.Meta["hostile"])}
+		},
+		RuleText: genRule + "Each case = a valid cluster + 1-5 malformed-object mutations (queue self-parent / cycles / missing parents / nil resources / absurd quotas, bad sub-group graphs, non-positive or huge minimums, pods without containers or pod group, garbage GPU annotations incl. NaN/Inf/overflow, nodes without labels / zero, negative or empty allocatable / garbage GPU labels, dangling BindRequests, empty topologies, missing priority classes) + a healthy control workload on its own queue and node. Oracle: no panic (in-process recover or worker crash), termination (45 s watchdog, ~300x a normal cycle; a worker killed by the watchdog counts as a hang only if a goroutine is running inside KAI code), control workload bound. Non-trivial: a case with >= 1 mutation.",
+		Assume:   []string{"a watchdog firing without a running KAI goroutine is inconclusive", "every 8th case carries no mutation (well-formed input)"}})
 }
